@@ -321,6 +321,19 @@ Definition wf_fobjb (k : fkb) (i : nat) (o : fobj) : bool :=
 Definition wf_fkbb (k : fkb) : bool :=
   forallb (fun p => wf_fobjb k (fst p) (snd p)) (combine (seq 0 (length k)) k).
 
+(* shape facts about how the library builds formulae (checked on every scenario next to wf_fkbb): operand maps have the
+   operand's arity, no repeated slot, slots below the operator's number of variables; the operator's variables are the union
+   of its operands' variables; operands that all use one map use the identity map (the variable tuple is collected in order
+   of first appearance); a negation has the variables of its operand *)
+Definition shape_objb (k : fkb) (o : fobj) : bool :=
+  Nat.eqb (length (fmaps o)) (length (fops o)) &&
+  forallb (fun jm => Nat.eqb (length (snd jm)) (fnv (getf k (fst jm))) && nodupb (snd jm) && forallb (fun sl => Nat.ltb sl (fnv o)) (snd jm))
+          (combine (fops o) (fmaps o)) &&
+  (if is_homog o then forallb (fun m => list_nat_eqb m (identity_map (fnv o))) (fmaps o)
+   else forallb (fun sl => existsb (memb sl) (fmaps o)) (seq 0 (fnv o))) &&
+  match fkd o with FNot => is_homog o | _ => true end.
+Definition shape_okb (k : fkb) : bool := forallb (shape_objb k) k.
+
 (* ---------- public inference operations (between two data updates) ---------- *)
 Inductive fpubop :=
 | FNodeUp (i : nat)
